@@ -9,12 +9,14 @@ is written. They hold for every `D : Discard` (the float64 arithmetic of `scaleo
 
 PROPERTY THEOREMS (audited by ./check): C10_validate_iff_spec, C10_validate_filter, C10_post, C10_post_v1,
 C10_def_sizes_are_bytes, C10_reject, C10_reject_batch, C10_gate_no_panic,
-C10_accept_batch, C10_idempotent_partial, C10_idempotent_full_fails_rescale, C10_idempotent_full_fails_empty
+C10_accept_batch, C10_idempotent_partial, C10_idempotent_full_fails_rescale
 
 Known findings: KF-C10-1 (F11, nil `FieldBase` under protocol 1.0 panicked) is FIXED in /repo: `C10_gate_no_panic`
-is now the full statement. Open: KF-C10-2 (a float64 value under base
-type float64 is scaled again) and KF-C10-3 (all developer fields dropped → the empty message is accepted once,
-rejected the second time): `C10_idempotent_partial` excludes both, `C10_idempotent_full_fails_*` refute the full statement.
+is now the full statement. KF-C10-3 (no field kept and all developer fields dropped → the empty message was accepted
+once, rejected the second time) is FIXED in /repo (`Validate` repeats the emptiness test after the developer-field
+loop): `C10_post` now states that an accepted message is never empty and `C10_idempotent_partial` no longer excludes
+that class. Open: KF-C10-2 (a float64 value under base type float64 is scaled again): `C10_idempotent_partial`
+excludes it, `C10_idempotent_full_fails_rescale` refutes the full statement.
 -/
 namespace Fit.C10
 open Fit.Gen Fit.Value Fit.Msg Fit.Validator
@@ -56,13 +58,14 @@ theorem C10_validate_filter (D : Discard) (o : Options) (st : State) (m m' : Mes
   rfl
 
 /-- **Post-condition of acceptance.** Every accepted message respects the limits of the protocol: at most 255
-fields and 255 developer fields, not both empty lists in the input; every field has its `FieldBase`, is not an
+fields and 255 developer fields, and something is left to write (the accepted message is never the empty message: at
+least one field or one developer field was kept — since the repair of KF-C10-3); every field has its `FieldBase`, is not an
 expanded field, its value aligns with its base type, is valid UTF-8, occupies at most 255 bytes and (unless
 preserved) is valid; every developer field is backed by a developer-data-id and a field-description known to
 the validator, aligns with the described base type, is valid UTF-8 and at most 255 bytes. -/
 theorem C10_post (D : Discard) (o : Options) (st : State) (m m' : Message)
     (h : (validate D o st m).1 = .ok m') :
-    m'.fields.length ≤ 255 ∧ m'.devFields.length ≤ 255 ∧
+    m'.fields.length ≤ 255 ∧ m'.devFields.length ≤ 255 ∧ ¬(m'.fields = [] ∧ m'.devFields = []) ∧
     (∀ f ∈ m'.fields, ∃ b, f.base = some b ∧ f.isExpanded = false ∧ align f.value b.baseType = true ∧
       utf8Valid f.value = true ∧ size f.value ≤ 255 ∧ (o.omitInvalid = true → valid f.value b.baseType = true)) ∧
     (∀ d ∈ m'.devFields, ∃ fd, lookupFd (validate D o st m).2.fds d = some fd ∧
@@ -70,11 +73,15 @@ theorem C10_post (D : Discard) (o : Options) (st : State) (m m' : Message)
       utf8Valid d.value = true ∧ size d.value ≤ 255 ∧ (o.omitInvalid = true → valid d.value fd.btId = true)) := by
   have hst := validate_state D o st m m' h
   have hs := ((C10_validate_iff_spec D o st m).1 m').mpr h
-  obtain ⟨hm, hall, hlen, _, hback, hdall, hdlen⟩ := specValidate_some D o st m m' hs
+  obtain ⟨hm, hall, hlen, hnempty, hback, hdall, hdlen⟩ := specValidate_some D o st m m' hs
   have hf : m'.fields = specFields D o m.fields := by rw [hm]
   have hd : m'.devFields = specDevs D o (remember st m.num (specFields D o m.fields)) m.devFields := by rw [hm]
   have hst' : (validate D o st m).2 = remember st m.num (specFields D o m.fields) := by rw [hst, hf]
-  refine ⟨by rw [hf]; exact hlen, by rw [hd]; exact hdlen, ?_, ?_⟩
+  refine ⟨by rw [hf]; exact hlen, by rw [hd]; exact hdlen, ?_, ?_, ?_⟩
+  · rintro ⟨h1, h2⟩
+    rw [hf] at h1
+    rw [hd] at h2
+    exact hnempty ⟨by rw [h1]; rfl, by rw [h2]; rfl⟩
   · intro f hfm
     rw [hf] at hfm
     obtain ⟨g, _, hk, rfl⟩ := mem_specFields hfm
@@ -140,7 +147,7 @@ validated message: every size is its own residue modulo 256. -/
 theorem C10_def_sizes_are_bytes (D : Discard) (o : Options) (st : State) (m m' : Message)
     (h : (validate D o st m).1 = .ok m') :
     (∀ f ∈ m'.fields, size f.value % 256 = size f.value) ∧ (∀ d ∈ m'.devFields, size d.value % 256 = size d.value) := by
-  obtain ⟨_, _, hf, hd⟩ := C10_post D o st m m' h
+  obtain ⟨_, _, _, hf, hd⟩ := C10_post D o st m m' h
   refine ⟨fun f hfm => ?_, fun d hdm => ?_⟩
   · obtain ⟨_, _, _, _, _, hsz, _⟩ := hf f hfm
     exact Nat.mod_eq_of_lt (by omega)
@@ -281,17 +288,17 @@ theorem C10_accept_batch (D : Discard) (ver : Nat) (o : Options) (st : State) (m
       rfl
   | err e => exact absurd hq (protoOk_not_err ver m hp e)
 
-/-- **Validating twice equals validating once (partial: excludes the classes of KF-C10-2 and KF-C10-3).**
+/-- **Validating twice equals validating once (partial: excludes the class of KF-C10-2).**
 If a message was accepted as `m'`, validating `m'` again with the same validator accepts it unchanged — provided
 restoring is stable on `m'` (no kept value is scaled a second time: true whenever the restored value is no longer
-float64-typed, i.e. for every base type but float64) and `m'` is not the empty message. -/
+float64-typed, i.e. for every base type but float64). (The former second exclusion, "`m'` is not the empty message"
+— KF-C10-3 —, is gone: an accepted message is never empty, `C10_post`.) -/
 theorem C10_idempotent_partial (D : Discard) (o : Options) (st : State) (m m' : Message)
     (h : (validate D o st m).1 = .ok m')
-    (hne : ¬(m'.fields = [] ∧ m'.devFields = []))
     (hsf : ∀ f ∈ m'.fields, restoredField D f = f)
     (hsd : ∀ d ∈ m'.devFields, restoredDev D o (validate D o st m).2 d = d) :
     (validate D o (validate D o st m).2 m').1 = .ok m' := by
-  obtain ⟨hlf, hld, hpf, hpd⟩ := C10_post D o st m m' h
+  obtain ⟨hlf, hld, hne, hpf, hpd⟩ := C10_post D o st m m' h
   have hs := ((C10_validate_iff_spec D o st m).1 m').mpr h
   obtain ⟨hm, hall, _, _, _, hdall, _⟩ := specValidate_some D o st m m' hs
   have hstate := validate_state D o st m m' h
@@ -396,20 +403,13 @@ theorem C10_idempotent_full_fails_rescale (D : Discard)
 def kf3State : State := ⟨[0], [⟨0, 1, btUint8, 255, 127, 65535, 255⟩]⟩
 def kf3Mesg : Message := ⟨20, [], [⟨0, 1, .uint8 255⟩]⟩
 
-/-- **KF-C10-3.** For every discard function the full statement is false: a message without fields whose developer
-fields are all dropped as invalid is accepted as the *empty* message, which the second validation rejects
-(`errNoFields` is tested before the developer fields are filtered). -/
-theorem C10_idempotent_full_fails_empty (D : Discard) : ¬ C10_idempotent_full D := by
-  intro h
-  unfold C10_idempotent_full at h
-  have e1 : validate D {} kf3State kf3Mesg = (.ok ⟨20, [], []⟩, kf3State) := by
-    simp [validate, validateFields, validateDevs, kf3Mesg, kf3State, lookupFd, restoreDev, valid, remember,
+/-- the former witness of KF-C10-3 (a message without fields whose only developer field is dropped as invalid; it
+used to be accepted as the empty message, which the second validation rejected) is now rejected with `errNoFields`
+the first time, for every discard function, and so is the empty message it used to become -/
+example (D : Discard) : (validate D {} kf3State kf3Mesg).1 = .error .noFields ∧
+    (validate D {} kf3State ⟨20, [], []⟩).1 = .error .noFields := by
+  constructor
+  · simp [validate, validateFields, validateDevs, kf3Mesg, kf3State, lookupFd, restoreDev, valid, remember,
       mesgNumDeveloperDataId, mesgNumFieldDescription, mesgNumInvalid, uint8Invalid, sint8Invalid, btUint8, btEnum, btByte, enumInvalid, byteInvalid]
-  have e2 : (validate D {} kf3State ⟨20, [], []⟩).1 = .error .noFields := by
-    simp [validate, validateFields]
-  have := h {} kf3State kf3Mesg ⟨20, [], []⟩ (by rw [e1])
-  rw [e1] at this
-  simp only at this
-  rw [e2] at this
-  cases this
+  · simp [validate, validateFields]
 end Fit.C10
